@@ -51,6 +51,13 @@ import (
 
 var log = logger.New(logrus.StandardLogger(), "confsys")
 
+func init() {
+	// Component configuration payloads are JSON, ini or plain text, never HTML: a value substituted by
+	// GetAndProcessComponentConfiguration must reach the payload as supplied. pongo2 rewrites & < > " ' in every
+	// string it prints unless autoescaping is off; this package is the only user of pongo2.
+	pongo2.SetAutoescape(false)
+}
+
 const inventoryKeyPrefix = "o2/hardware/"
 const readoutCardKeyPrefix = "o2/components/readoutcard/"
 
